@@ -18,11 +18,14 @@ class NodeCtl:
         self.ret_types = []
         self.busy = False
         self.on_return = None  # callback(nodectl, what) run each time a public call returns
+        self.stopped = False
 
     def loop(self):
         sim = self.net.sim
         node, chip = self.node, self.chip
         while True:
+            if self.stopped:
+                return  # power loss: the MCU stops
             while self.cmds:
                 fn, box = self.cmds.pop(0)
                 self.busy = True
@@ -191,3 +194,14 @@ def air_frames(med, src=None, include_unreceived=True, merge_all=False):
         out.append(d)
         seen[k] = d
     return out
+
+
+def power_loss(net, key):
+    """the node's MCU stops and its radio goes silent"""
+    c = net.ctl[key]
+    c.stopped = True
+    c.chip.set_ce(False)
+    c.chip.reg[0] &= ~2
+    c.chip._config_written()
+    if c.task is not None and c.task.idle:
+        c.task.wake = min(c.task.wake, net.sim.now)
